@@ -180,13 +180,17 @@ func c08Stubs() map[string]interface{} {
 type c08Model struct {
 	exists bool
 	fams   map[string]bool
+	rules  map[string]int32   // family -> max versions of its GC rule (0 = none)
 	cells  [2]map[string]byte // row -> family -> value
 }
 
 func (m c08Model) clone() c08Model {
-	n := c08Model{exists: m.exists, fams: map[string]bool{}}
+	n := c08Model{exists: m.exists, fams: map[string]bool{}, rules: map[string]int32{}}
 	for f := range m.fams {
 		n.fams[f] = true
+	}
+	for f, r := range m.rules {
+		n.rules[f] = r
 	}
 	for r := 0; r < 2; r++ {
 		n.cells[r] = map[string]byte{}
@@ -209,7 +213,8 @@ func c08Matches(s *server, m c08Model) bool {
 		return false
 	}
 	for f := range m.fams {
-		if _, ok := got.ColumnFamilies[f]; !ok {
+		cf, ok := got.ColumnFamilies[f]
+		if !ok || c14RuleOf(cf) != m.rules[f] {
 			return false
 		}
 	}
@@ -262,7 +267,7 @@ func H_C08_crash() {
 	vInlineGo(true) // the listener and GC-timer goroutines are inert stubs here
 	vCrashAt = -1
 	s := c08Start("/data")
-	m := c08Model{fams: map[string]bool{}}
+	m := c08Model{fams: map[string]bool{}, rules: map[string]int32{}}
 	m.cells[0], m.cells[1] = map[string]byte{}, map[string]byte{}
 	if vChoice("preseeded", 0, 1) == 1 {
 		// acknowledged history before the program: a table with family f and a cell in both rows
@@ -297,21 +302,25 @@ func H_C08_crash() {
 				return err
 			}
 			if !m.exists {
-				next = c08Model{exists: true, fams: map[string]bool{"f": true}}
+				next = c08Model{exists: true, fams: map[string]bool{"f": true}, rules: map[string]int32{}}
 				next.cells[0], next.cells[1] = map[string]byte{}, map[string]byte{}
 			}
 		case 1:
 			run = func() error { _, err := s.DeleteTable(vCtx(), &btapb.DeleteTableRequest{Name: vTable}); return err }
 			if m.exists {
-				next = c08Model{fams: map[string]bool{}}
+				next = c08Model{fams: map[string]bool{}, rules: map[string]int32{}}
 				next.cells[0], next.cells[1] = map[string]byte{}, map[string]byte{}
 			}
 		case 2:
-			drop := vChoice("modify.drop", 0, 1) == 1
+			mk := vChoice("modify.kind", 0, 2) // 0 create g, 1 drop f, 2 update f's GC rule
+			drop := mk == 1
 			run = func() error {
 				mod := &btapb.ModifyColumnFamiliesRequest_Modification{Id: "g", Mod: &btapb.ModifyColumnFamiliesRequest_Modification_Create{Create: &btapb.ColumnFamily{}}}
 				if drop {
 					mod = &btapb.ModifyColumnFamiliesRequest_Modification{Id: "f", Mod: &btapb.ModifyColumnFamiliesRequest_Modification_Drop{Drop: true}}
+				}
+				if mk == 2 {
+					mod = &btapb.ModifyColumnFamiliesRequest_Modification{Id: "f", Mod: &btapb.ModifyColumnFamiliesRequest_Modification_Update{Update: &btapb.ColumnFamily{GcRule: c14Rule(5)}}}
 				}
 				_, err := s.ModifyColumnFamilies(vCtx(), &btapb.ModifyColumnFamiliesRequest{Name: vTable, Modifications: []*btapb.ModifyColumnFamiliesRequest_Modification{mod}})
 				return err
@@ -319,10 +328,13 @@ func H_C08_crash() {
 			if m.exists {
 				if drop && m.fams["f"] {
 					delete(next.fams, "f")
+					delete(next.rules, "f")
 					delete(next.cells[0], "f")
 					delete(next.cells[1], "f")
-				} else if !drop && !m.fams["g"] {
+				} else if mk == 0 && !m.fams["g"] {
 					next.fams["g"] = true
+				} else if mk == 2 && m.fams["f"] {
+					next.rules["f"] = 5
 				}
 			}
 		case 3:
